@@ -8,6 +8,9 @@ use std::time::Duration;
 use http::header::{HeaderMap, HeaderName, HeaderValue, CONTENT_LENGTH, TRANSFER_ENCODING, CONTENT_ENCODING, CONTENT_TYPE};
 use flate2::bufread::{DeflateDecoder, GzDecoder};
 use http::{Method, StatusCode, Version};
+#[allow(unused_imports)] use http::header::*;   // every header-name constant the repo may mention
+#[allow(unused_imports)] use std::io::{Seek, SeekFrom};
+#[allow(unused_imports)] use std::borrow::Cow;
 use url::Url;
 use encoding_rs::Encoding;
 //@@ define head
